@@ -29,16 +29,35 @@
 (*                                   Choose: ~ok => Must = {} /\ listed = all *)
 (*      and (a) excludes an arbitrary type.                                *)
 (*                                                                         *)
-(* Where the statement is silent: the rounding of the 5 percent discount.  *)
-(* "it.RAM discounted by 5% covers the need" is, in exact arithmetic,      *)
-(* 95 * it.RAM >= 100 * need (MustRam); the code computes                  *)
-(* need * 100 \div 95 with truncation and compares (MayRam), which accepts *)
-(* a type that is short by a fraction of one byte.  Both roundings are     *)
-(* allowed: a type in May \ Must may be chosen or not.  The image-size     *)
-(* estimate is the documented heuristic of node_size.go (manifest size     *)
-(* n -> ((n - 80) \div 42) blocks of 64 MiB, nothing below 122), needed    *)
-(* once as load buffer (shared with tmp space) and once extracted.         *)
+(* Where the statement is silent, both readings are allowed (a type that   *)
+(* is adequate under the most demanding reading is in Must, one that is    *)
+(* adequate under the least demanding reading is in May; the result has to *)
+(* be in May and no cheaper type may be in Must):                          *)
+(*  - the rounding of the 5 percent discount: exact arithmetic             *)
+(*    95 * it.RAM >= 100 * need (MustRam) or the truncating division the   *)
+(*    code uses (MayRam);                                                  *)
+(*  - how much scratch "loading the Docker image" takes.  The statement    *)
+(*    says tmp mounts AND the image.  The only notion of the image's size  *)
+(*    there is without reading the image is the documented estimate of     *)
+(*    node_size.go (manifest size n -> ((n - 80) div 42) blocks of 64 MiB, *)
+(*    none for a non-PDH or tiny manifest); it is used here as the         *)
+(*    REFERENCE for "the image", nothing more.  Least demanding reading:   *)
+(*    the tmp mounts plus the image once (NeedLow = tmp + img: the load    *)
+(*    buffer shares space with tmp, or is not needed).  Most demanding:    *)
+(*    tmp plus buffer plus extracted image (NeedHigh = tmp + 2 * img).     *)
+(*    The code's own figure max(tmp, img) + img lies between the two.      *)
+(*    A different size estimate within these readings is not rejected.     *)
+(*  - preemptibility is required to MATCH (a non-preemptible container is  *)
+(*    not put on a preemptible type and vice versa): the statement says    *)
+(*    the type "satisfies ... preemptibility"; running a preemption-       *)
+(*    tolerant container on an on-demand type changes what the user pays   *)
+(*    for, so the code's equality is taken as the meaning.                 *)
 (* Which of several cheapest adequate types is returned is not specified.  *)
+(*                                                                         *)
+(* The code's exact arithmetic (ChooseExact: scratch need max(tmp, img) +  *)
+(* img to the byte) is what the implementation-shaped model NodeSize.tla   *)
+(* is checked against; for the real code a deviation from it that stays    *)
+(* within Choose is reported as DRIFT, not as a violation.                 *)
 (***************************************************************************)
 EXTENDS Integers, Sequences, FiniteSets
 
@@ -54,9 +73,11 @@ ImgSize(n) == IF n < 122 THEN 0 ELSE ((n - 80) \div 42) * MiB64
 RECURSIVE SumSeq(_)
 SumSeq(s) == IF s = <<>> THEN 0 ELSE Head(s) + SumSeq(Tail(s))
 
-NeedScratch(i) == LET img == ImgSize(i.imgn)
+NeedScratch(i) == LET img == ImgSize(i.imgn)               \* the code's figure
                       tmp == SumSeq(i.tmps)
                   IN  (IF tmp < img THEN img ELSE tmp) + img
+NeedLow(i)  == SumSeq(i.tmps) + ImgSize(i.imgn)
+NeedHigh(i) == SumSeq(i.tmps) + 2 * ImgSize(i.imgn)
 
 NeedSum(i) == i.ram + i.kc + i.reserve
 
@@ -65,12 +86,16 @@ MayRam(t, i)  == t.ram * i.scale >= (NeedSum(i) * i.scale * 100) \div 95
 \* exact arithmetic
 MustRam(t, i) == t.ram * 95 >= NeedSum(i) * 100
 
-Other(t, i) == /\ t.vcpus >= i.vcpus
-               /\ t.scratch >= NeedScratch(i)
-               /\ t.pre = i.pre
+Other(t, i, need) == /\ t.vcpus >= i.vcpus
+                     /\ t.scratch >= need
+                     /\ t.pre = i.pre
 
-May(i)  == {k \in DOMAIN i.types : Other(i.types[k], i) /\ MayRam(i.types[k], i)}
-Must(i) == {k \in DOMAIN i.types : Other(i.types[k], i) /\ MustRam(i.types[k], i)}
+\* statement level
+May(i)  == {k \in DOMAIN i.types : Other(i.types[k], i, NeedLow(i)) /\ MayRam(i.types[k], i)}
+Must(i) == {k \in DOMAIN i.types : Other(i.types[k], i, NeedHigh(i)) /\ MustRam(i.types[k], i)}
+\* the code's scratch figure to the byte (RAM rounding still free)
+MayX(i)  == {k \in DOMAIN i.types : Other(i.types[k], i, NeedScratch(i)) /\ MayRam(i.types[k], i)}
+MustX(i) == {k \in DOMAIN i.types : Other(i.types[k], i, NeedScratch(i)) /\ MustRam(i.types[k], i)}
 
 NCInit(i) == inp = i /\ res = 0
 
@@ -79,12 +104,13 @@ NCInit(i) == inp = i /\ res = 0
 (* listed: the set of indices of the types listed in the error.            *)
 ChooseEff == res' = res + 1 /\ UNCHANGED inp        \* effect only (used by the impl-shaped model)
 
-Choose(ok, pick, listed) ==
-    /\ IF ok
-       THEN /\ pick \in May(inp)                                          \* (a)
-            /\ \A k \in Must(inp) : inp.types[k].price >= inp.types[pick].price   \* (b)
-       ELSE /\ Must(inp) = {}                                             \* (c)
-            /\ listed = DOMAIN inp.types                                  \* (c)
-    /\ res' = res + 1
-    /\ UNCHANGED inp
+Allowed(ok, pick, listed, may, must) ==
+    IF ok
+    THEN /\ pick \in may                                                \* (a)
+         /\ \A k \in must : inp.types[k].price >= inp.types[pick].price   \* (b)
+    ELSE /\ must = {}                                                    \* (c)
+         /\ listed = DOMAIN inp.types                                    \* (c)
+
+Choose(ok, pick, listed) == Allowed(ok, pick, listed, May(inp), Must(inp)) /\ ChooseEff
+ChooseExact(ok, pick, listed) == Allowed(ok, pick, listed, MayX(inp), MustX(inp)) /\ ChooseEff
 =============================================================================
